@@ -1280,6 +1280,9 @@ enum SweepKind {
     DropEnd { a: usize, b: usize },
     /// assembled compound file: field at `off`
     Cfb { off: usize, v: u8 },
+    /// assembled zip package: 2- or 4-byte field at `off` of a local header, central-directory entry or
+    /// end-of-central-directory record
+    Zip { off: usize, width: u8, v: u8 },
     /// binary part: record number `rec` made `delta` bytes longer (zero padding) or shorter, its
     /// declared length adjusted so that the stream stays framed
     Resize { rec: usize, delta: i8, biff12: bool },
@@ -1365,6 +1368,20 @@ fn sweep_bytes(docs: &[Container], it: &SweepItem) -> Vec<u8> {
         SweepKind::Cut { at } => parts[it.part].1.truncate(at),
         SweepKind::DropEnd { a, b } => {
             parts[it.part].1.drain(a..b);
+        }
+        SweepKind::Zip { off, width, v } => {
+            let mut bytes = wrap_container(parts, &c.wrap);
+            if off + width as usize <= bytes.len() {
+                let mut cur = [0u8; 4];
+                cur[..width as usize].copy_from_slice(&bytes[off..off + width as usize]);
+                let val = match v {
+                    10 => 0x1000_0000, // 256 MiB: a declared size far beyond the file
+                    11 => 0x0FFF_FFFF,
+                    v => field_value(u32::from_le_bytes(cur), width, v),
+                };
+                bytes[off..off + width as usize].copy_from_slice(&val.to_le_bytes()[..width as usize]);
+            }
+            return bytes;
         }
         SweepKind::Cfb { off, v } => {
             let mut bytes = wrap_container(parts, &c.wrap);
@@ -1455,6 +1472,25 @@ fn boundary_sweep(ctx: &mut Ctx) {
                     }
                 }
                 _ => {}
+            }
+        }
+        if !matches!(c.wrap, Wrap::Cfb(_)) {
+            // zip structures: (offset within the structure, width) of the fields a reader consumes
+            let plain = wrap_container(c.parts.clone(), &c.wrap);
+            let mut i = 0;
+            while i + 4 <= plain.len() {
+                let fields: &[(usize, u8)] = match &plain[i..i + 4] {
+                    b"PK\x03\x04" => &[(6, 2), (8, 2), (14, 4), (18, 4), (22, 4), (26, 2), (28, 2)],
+                    b"PK\x01\x02" => &[(8, 2), (10, 2), (16, 4), (20, 4), (24, 4), (28, 2), (30, 2), (32, 2), (42, 4)],
+                    b"PK\x05\x06" => &[(8, 2), (10, 2), (12, 4), (16, 4), (20, 2)],
+                    _ => &[],
+                };
+                for (o, w) in fields {
+                    for v in 0..12u8 {
+                        items.push(SweepItem { doc: di, part: 0, kind: SweepKind::Zip { off: i + o, width: *w, v } });
+                    }
+                }
+                i += if fields.is_empty() { 1 } else { 4 };
             }
         }
         if let Wrap::Cfb(l) = &c.wrap {
